@@ -13,6 +13,7 @@ package main
 //                          the destination untouched (encoding/json validates before decoding)
 
 import (
+	"fmt"
 	"go/types"
 	"reflect"
 
@@ -59,6 +60,239 @@ func payloadOf(v Value) (OpaqueV, bool) {
 	return p, ok
 }
 
+// countElems weighs a marshalled value: 1000 per list element plus the lengths of its concrete
+// strings - the store's length grows with the number of targets it holds and with their texts.
+func countElems(s *State, v Value, depth int) int {
+	if depth > 8 {
+		return 0
+	}
+	n := 0
+	switch x := v.(type) {
+	case *StructV:
+		if x != nil {
+			for _, f := range x.F {
+				n += countElems(s, f, depth+1)
+			}
+		}
+	case MapV:
+		if x.O != nil {
+			for _, e := range x.O.Entries {
+				n += countElems(s, e.V, depth+1)
+			}
+		}
+	case SliceV:
+		if x.O != nil {
+			arr := x.O.Val.(*ArrayV)
+			for i := 0; i < x.Len; i++ {
+				n += 1000
+				n += countElems(s, arr.E[x.Off+i], depth+1)
+			}
+		}
+	case *Term:
+		if x.Const && x.Sort.K == SStr {
+			n += len(x.S)
+		}
+	case Ptr:
+		if x.O != nil {
+			n += countElems(s, s.load(x), depth+1)
+		}
+	}
+	return n
+}
+
+// blobLen gives a marshalled document its byte length: a fresh symbolic value in [64, 2^20] that
+// is strictly larger (by more than one byte) than the length of every earlier document with
+// fewer list elements and strictly smaller than that of every earlier one with more; documents
+// with the same number of elements are not related.
+func (w *Worker) blobLen(s *State, content Value) *Term {
+	tc := w.tc
+	n := countElems(s, content, 0)
+	if s.ghost == nil {
+		s.ghost = map[string]Value{}
+	}
+	prev, _ := s.ghost["fs.lens"].(TupleV)
+	l := w.input(s, "fs.len."+fmt.Sprint(len(prev)/2), bv(64))
+	cs := []*Term{tc.Cmp("bvsle", tc.BV(64, 64), l), tc.Cmp("bvsle", l, tc.BV(64, 1<<20))}
+	for i := 0; i+1 < len(prev); i += 2 {
+		pn, pl := int(prev[i].(*Term).U), prev[i+1].(*Term)
+		if pn < n {
+			cs = append(cs, tc.Cmp("bvslt", tc.Add(pl, tc.BV(64, 1)), l))
+		} else if pn > n {
+			cs = append(cs, tc.Cmp("bvslt", tc.Add(l, tc.BV(64, 1)), pl))
+		}
+	}
+	c := tc.And(cs...)
+	if c.IsFalse() {
+		panic(pathDead{})
+	}
+	if !c.IsTrue() {
+		s.pc = s.pc.push(c)
+	}
+	s.ghost["fs.lens"] = append(append(TupleV(nil), prev...), tc.BV(64, uint64(n)), l)
+	return l
+}
+
+func fcLen(w *Worker, c OpaqueV) *Term {
+	t := c.X.(TupleV)
+	if len(t) > 2 {
+		return t[2].(*Term)
+	}
+	return w.tc.BV(64, 0)
+}
+
+// cutLen is the number of bytes of blob that reach the file before a write breaks off:
+// mode 5 = all but the last byte, otherwise a short prefix (0..23 bytes, what the native fault
+// emulation produces).
+func (w *Worker) cutLen(s *State, blob OpaqueV, mode int) *Term {
+	tc := w.tc
+	l := fcLen(w, blob)
+	if mode == 5 {
+		return tc.Sub(l, tc.BV(64, 1))
+	}
+	if mode != 2 && mode != 4 {
+		return l
+	}
+	// the native fault emulation breaks the write off after `fault.offset` (< 24) bytes
+	cut := w.input(s, "fault.offset", bv(64))
+	c := tc.And(tc.Cmp("bvsle", tc.BV(64, 0), cut), tc.Cmp("bvslt", cut, tc.BV(64, 24)))
+	if !c.IsTrue() {
+		s.pc = s.pc.push(c)
+	}
+	return cut
+}
+
+func (s *State) fsFaultMode(w *Worker, path string, consume func(mode int) bool) int {
+	for _, k := range []string{"fsnext:" + path, "fsnext:*"} {
+		if fv, ok := s.ghost[k]; ok {
+			mode := w.concInt(fv, "fault mode")
+			if consume(mode) {
+				delete(s.ghost, k)
+				return mode
+			}
+			return 0
+		}
+	}
+	return 0
+}
+
+const (
+	oCREATE = 0x40
+	oTRUNC  = 0x200
+	oAPPEND = 0x400
+)
+
+func emptyFile(w *Worker, s *State) OpaqueV {
+	s.nOpaque++
+	return OpaqueV{ID: s.nOpaque, Tag: "jsonblob", X: TupleV{nil, w.tc.False, w.tc.BV(64, 0)}}
+}
+
+func init() {
+	// os.OpenFile / (*os.File).Write / Sync / Close: one Write of a marshalled document per handle,
+	// at offset 0. Without O_TRUNC the bytes of a longer existing file survive behind the new
+	// document (which then no longer parses).
+	stubs["os.OpenFile"] = func(w *Worker, s *State, f *Frame, fn *ssa.Function, a []Value, d int) (Value, bool) {
+		path := w.concStr(a[0], "file name")
+		flags := w.concInt(a[1], "open flags")
+		if flags&oAPPEND != 0 {
+			panic(unsupported{"os.OpenFile with O_APPEND"})
+		}
+		mode := s.fsFaultMode(w, path, func(m int) bool { return m == 1 || m == 3 })
+		if mode == 1 {
+			s.covers["fs.write.err.before"] = true
+			return TupleV{Ptr{}, w.newError(s, w.tc.Str("open failed"))}, false
+		}
+		if mode == 3 {
+			s.covers["fs.kill.before"] = true
+			panic(crash{"process killed"})
+		}
+		_, exists := s.fsGet(path)
+		if !exists && flags&oCREATE == 0 {
+			e := w.newError(s, w.tc.Str("open "+path+": no such file or directory")).(IfaceV)
+			o := e.V.(OpaqueV)
+			o.X = w.tc.Str("ENOENT")
+			e.V = o
+			return TupleV{Ptr{}, e}, false
+		}
+		if !exists || flags&oTRUNC != 0 {
+			s.fsPut(path, emptyFile(w, s))
+		}
+		s.nOpaque++
+		h := s.newObj("cell", OpaqueV{ID: s.nOpaque, Tag: "osfile", X: TupleV{w.tc.Str(path), w.tc.BV(64, 0)}})
+		return TupleV{Ptr{O: h}, IfaceV{}}, false
+	}
+	stubs["os.Create"] = func(w *Worker, s *State, f *Frame, fn *ssa.Function, a []Value, d int) (Value, bool) {
+		return stubs["os.OpenFile"](w, s, f, fn, []Value{a[0], w.tc.BV(64, uint64(2|oCREATE|oTRUNC)), w.tc.BV(32, 0666)}, d)
+	}
+	fileOf := func(w *Worker, s *State, v Value) (*Obj, string, int) {
+		p, ok := v.(Ptr)
+		if !ok || p.O == nil {
+			panic(crash{"nil *os.File"})
+		}
+		op, ok := p.O.Val.(OpaqueV)
+		if !ok || op.Tag != "osfile" {
+			panic(unsupported{"file handle that was not opened by os.OpenFile"})
+		}
+		t := op.X.(TupleV)
+		return p.O, t[0].(*Term).S, int(t[1].(*Term).U)
+	}
+	stubs["(*os.File).Write"] = func(w *Worker, s *State, f *Frame, fn *ssa.Function, a []Value, d int) (Value, bool) {
+		h, path, writes := fileOf(w, s, a[0])
+		blob, ok := payloadOf(a[1])
+		if !ok {
+			panic(unsupported{"Write of bytes that are not a marshalled blob"})
+		}
+		if writes > 0 {
+			panic(unsupported{"second Write on one file handle"})
+		}
+		op := h.Val.(OpaqueV)
+		op.X = TupleV{w.tc.Str(path), w.tc.BV(64, 1)}
+		h.Val = op
+		tc := w.tc
+		old, exists := s.fsGet(path)
+		if !exists {
+			old = emptyFile(w, s) // unlinked meanwhile: not modelled further
+		}
+		oldLen, newLen := fcLen(w, old), fcLen(w, blob)
+		mode := s.fsFaultMode(w, path, func(m int) bool { return m == 2 || m == 4 || m == 5 })
+		if mode == 0 {
+			if w.branch(s, tc.Cmp("bvslt", newLen, oldLen)) {
+				// the tail of the longer old content stays behind the new document
+				s.covers["fs.write.stale.tail"] = true
+				s.fsPut(path, OpaqueV{ID: blob.ID, Tag: "jsonblob", T: blob.T, X: TupleV{blob.X.(TupleV)[0], tc.False, oldLen}})
+			} else {
+				s.fsPut(path, blob)
+			}
+			s.covers["fs.write.ok"] = true
+			return TupleV{newLen, IfaceV{}}, false
+		}
+		cut := w.cutLen(s, blob, mode)
+		resLen := cut
+		if w.branch(s, tc.Cmp("bvslt", cut, oldLen)) {
+			resLen = oldLen
+		}
+		s.fsPut(path, OpaqueV{ID: blob.ID, Tag: "jsonblob", T: blob.T, X: TupleV{blob.X.(TupleV)[0], tc.False, resLen}})
+		if mode == 2 {
+			s.covers["fs.write.err.partial"] = true
+			return TupleV{cut, w.newError(s, tc.Str("no space left on device"))}, false
+		}
+		s.covers["fs.kill.partial"] = true
+		panic(crash{"process killed"})
+	}
+	stubs["(*os.File).Sync"] = func(w *Worker, s *State, f *Frame, fn *ssa.Function, a []Value, d int) (Value, bool) {
+		fileOf(w, s, a[0])
+		return IfaceV{}, false
+	}
+	stubs["(*os.File).Close"] = stubs["(*os.File).Sync"]
+	stubs["os.Remove"] = func(w *Worker, s *State, f *Frame, fn *ssa.Function, a []Value, d int) (Value, bool) {
+		path := w.concStr(a[0], "file name")
+		if _, ok := s.fsGet(path); !ok {
+			return w.newError(s, w.tc.Str("remove: no such file or directory")), false
+		}
+		delete(s.ghost, "fs:"+path)
+		return IfaceV{}, false
+	}
+}
+
 func init() {
 	stubs["encoding/json.Marshal"] = func(w *Worker, s *State, f *Frame, fn *ssa.Function, a []Value, d int) (Value, bool) {
 		iv := a[0].(IfaceV)
@@ -69,7 +303,7 @@ func init() {
 			content = snapshot(iv.V)
 		}
 		s.nOpaque++
-		blob := OpaqueV{ID: s.nOpaque, Tag: "jsonblob", X: TupleV{content, w.tc.True}, T: iv.T}
+		blob := OpaqueV{ID: s.nOpaque, Tag: "jsonblob", X: TupleV{content, w.tc.True, w.blobLen(s, content)}, T: iv.T}
 		return TupleV{byteSliceOf(s, blob), IfaceV{}}, false
 	}
 	stubs["encoding/json.Unmarshal"] = func(w *Worker, s *State, f *Frame, fn *ssa.Function, a []Value, d int) (Value, bool) {
@@ -145,7 +379,7 @@ func init() {
 			delete(s.ghost, "fsnext:*")
 		}
 		prefix := blob
-		prefix.X = TupleV{blob.X.(TupleV)[0], w.tc.False}
+		prefix.X = TupleV{blob.X.(TupleV)[0], w.tc.False, w.cutLen(s, blob, mode)}
 		switch mode {
 		case 0: // success
 			s.fsPut(path, blob)
@@ -161,7 +395,7 @@ func init() {
 		case 3: // process killed before the file is touched
 			s.covers["fs.kill.before"] = true
 			panic(crash{"process killed"})
-		default: // process killed after truncation / part-way through the write
+		default: // process killed after truncation / part-way through the write (5: one byte short)
 			s.fsPut(path, prefix)
 			s.covers["fs.kill.partial"] = true
 			panic(crash{"process killed"})
